@@ -741,7 +741,7 @@ def _ident(s):
 
 truthy = z3.Function('truthy', Ref, z3.BoolSort())
 ALWAYS_TRUE_TYPES = {'state', 'fn', 'rawstate', 'Thread', 'ThreadEvent', 'RLock', 'Queue', 'PriorityQueue', 'Attribute',
-                     'class', 'datetime', 'uuid', 'code', 'frame', 'match', 'subq', 'pqheap'}
+                     'class', 'datetime', 'uuid', 'code', 'frame', 'match'}
 box = z3.Function('box_int', z3.IntSort(), Ref)
 unbox = z3.Function('unbox_int', Ref, z3.IntSort())
 
